@@ -58,6 +58,7 @@ pub fn sim_cfg_of(plan: &Plan) -> SimCfg {
         stalls: plan.sim.stalls.iter().map(|s| Stall { at_step: s.at_step, name_contains: s.task.clone(), for_steps: s.for_steps, for_ns: s.for_ns }).collect(),
         epoch_ns: crate::gen::EPOCH_S * 1_000_000_000 + plan.sim.epoch_phase_ns,
         stall_after_recv_permille: plan.sim.stall_after_recv_permille,
+        step_cost_ns: plan.sim.step_cost_ns,
     }
 }
 
